@@ -348,6 +348,8 @@ theorem changeGainSegment_safe (s : State) (d : Array Nat) (h : FwWF s) (hst : S
   rw [if_neg (by omega)]
   split
   · exact ⟨_, _, rfl, h⟩
+  split
+  · exact ⟨_, _, rfl, h⟩
   simp only [ADDR_STM_REQ_RD_SEGMENT, ADDR_STM_TRANSITION_MODE, TRANSITION_MODE_SYNC_IDX,
     ctlWrite_main _ _ _ (by decide : 82 < 256), ctlWrite_main _ _ _ (by decide : 95 < 256),
     bind, Except.bind, pure, Except.pure]
